@@ -6,7 +6,7 @@ from ..core import rec_fields, unhex, hexs
 
 STALE = "an edit through a handle obtained before an operation that rebuilds its node is not visible in the field"
 
-FIXES = ["insert-first", "append-sep", "pipe", "entry-push", "version-pos", "remove-last", "first-substvar", "replace-ws"]
+FIXES = ["insert-first", "append-sep", "pipe", "entry-push", "version-pos", "remove-last", "first-substvar", "replace-ws", "in-place"]
 
 def detect_fixes(repo):
     """which of the proposed fixes (proposed_fixes/C11-*.patch) the repository under test contains,
@@ -26,6 +26,7 @@ def detect_fixes(repo):
         "remove-last": "if parent.is_empty() { parent.remove(); } else { self.0.detach(); }" not in flat,
         "first-substvar": "n.kind() == ENTRY || n.kind() == SUBSTVAR" in flat,
         "replace-ws": "new_head_len" not in flat,
+        "in-place": "fn detached_tokens" in flat,
     }
     return [f for f in FIXES if found[f]]
 
@@ -209,8 +210,8 @@ class C11(Prop):
         return ":ok" in impl.replace("=ok", ":ok").replace("/ok", ":ok")
 
     def known_class(self, stream, fields, impl, model, why):
-        if why and why.startswith(STALE):
-            return "c11-handle-after-rebuild"
+        # the former class c11-handle-after-rebuild is repaired (proposed_fixes/C11-10): a handle
+        # that goes stale is a violation again
         return None
 
     def shrink_field(self, stream):
